@@ -92,3 +92,8 @@ claim("C15", "fault_enumeration", "Enumerated grid (thorough) / Hypothesis sampl
       "unopenable database; the return value, META.json, the compressed log, the lock file, the run_meta row and the hook environments are read back and must be mutually consistent and follow the documented exit-code mapping. "
       "Fault enumeration: the grid is finite and covered completely in the thorough tier.",
       "KeyboardInterrupt raised inside the coroutine stands for Ctrl-C; db-close faults are not generated.")
+claim("C18", "exploration", "Enumeration of every (command, option, source subset) cell with generated distinct values through gallia's own parser construction; declared-metadata ground truth from the GALLIA_VERIF hook; JSON round-trip; template scan",
+      "For each of the 34 commands every non-hidden option of a modelled type is given values through each subset of {CLI, env, file}; the effective value must come from the highest-priority source, invalid values must exit 2 naming "
+      "their source, the dumped configuration must re-create an equal configuration, every declared Field() must keep its CLI/config metadata after model construction, and the template must list every file-configurable option. "
+      "The cell grid is enumerated; values are sampled (three rotations in the thorough tier).",
+      "Declared metadata recorded by the guarded hook in GalliaBaseModel.__init_subclass__; required options are satisfied by a solver; option types outside the modelled kinds are counted as skipped.")
